@@ -5,6 +5,9 @@ DMRG runs (stored LP/RP after every local update, freshness of every environment
 oracle: exact diagonalisation (dense Hamiltonians built here from the documented formulas) in the charge sector.
 """
 import itertools
+import json
+import random
+import zlib
 
 import numpy as np
 import scipy.integrate
@@ -164,7 +167,16 @@ def gen_case(rng, exact=False):
             opts['diag_method'] = 'lanczos'
         else:
             opts['lanczos_params'] = {}       # lanczos_arpack passes N_min as ncv
-    return {'model': model, 'L': L, 'bc': 'finite', 'engine': engine, 'init': init, 'init_idx': idx, 'options': opts, 'exact': exact}
+    case = {'model': model, 'L': L, 'bc': 'finite', 'engine': engine, 'init': init, 'init_idx': idx, 'options': opts, 'exact': exact}
+    # charge bookkeeping stream (Model/SweepCharge.v): regauge some bonds so that the site tensors carry nonzero qtotal (same state).
+    # Not with SingleSiteDMRGEngine + DensityMatrixMixer on a Z_2 charge: Mixer.determine_qtotal_L_R compares qtotal_L + qtotal_R with
+    # theta.qtotal without make_valid and raises ValueError there (T13_charge_one_site_dm_mixer_refuted; reported, not yet in KNOWN_FINDINGS).
+    cons = model.get('conserve', 'Sz')
+    # (own generator seeded from the case, so that the stream of cases drawn from `rng` is not perturbed)
+    rg = random.Random(zlib.crc32(json.dumps(case, sort_keys=True, default=str).encode()))
+    if cons != 'None' and rg.random() < 0.6 and not (engine == 'single' and mixer == 'DensityMatrixMixer' and cons == 'parity'):
+        case['regauge'] = [[rg.randrange(L - 1), rg.choice([1, -1, 2, 3])] for _ in range(rg.choice([1, 2, 3]))]
+    return case
 
 
 def gen_inf(rng):
@@ -231,6 +243,7 @@ def main(ctx):
         cases.append(c['case'])
     results = run_chunks(ctx, cases)
     coq_s, coq_s_idx, coq_r, coq_r_idx = [], [], [], []
+    coq_q, coq_q_idx = [], []
     hist = {'mixer': 0, 'single': 0, 'truncated': 0, 'exact_reached': 0, 'degenerate_gs': 0, 'complex': 0, 'steps': 0}
     for idx, (case, r) in enumerate(zip(cases, results)):
         if r is None:
@@ -328,6 +341,11 @@ def main(ctx):
                 snaps = [([Nat(i) for i in s['LP']], [Nat(i) for i in s['RP']]) for s in steps]
                 coq_r.append(coq_lit((Nat(L), Nat(r['n']), es, snaps)))
                 coq_r_idx.append(idx)
+                if r.get('mods') and 'qt0' in r and all('qt' in s for s in steps):
+                    qsteps = [(e, Nat(s['mix']), s['qt']) for e, s in zip(es, steps)]
+                    coq_q.append(coq_lit((r['mods'], Nat(r['n']), r['qt0'], qsteps)))
+                    coq_q_idx.append(idx)
+                    hist['charged_tensors'] = hist.get('charged_tensors', 0) + bool(any(any(q) for q in r['qt0']))
             ctx.count(stream, [case['model'], L, case['engine'], case['init_idx'], opts], nontrivial=True,
                       sample={'model': case['model'], 'L': L, 'engine': case['engine'], 'mixer': opts.get('mixer'), 'E': r['E'], 'E0': float(E0),
                               'chi': r['chi'], 'sweeps': r['sweeps']})
@@ -365,7 +383,15 @@ def main(ctx):
     for b in bad[:5]:
         ctx.fail('correspondence', 'Model/Sweep.v and the instrumented run disagree on the stored environments after some local update',
                  {'stream': 'env-trace', 'case': cases[coq_r_idx[b]]})
-    ctx.cov['traces_validated_against_impl'] = len(coq_s) + len(coq_r)
+    bad, err = common.coq_failing_indices('cases_c13_q', ['Base.Prelude', 'Model.Charge', 'Model.Sweep', 'Model.SweepCharge'], 'check_charge_run',
+                                          coq_q, shard=40)
+    if err:
+        ctx.fail('correspondence', 'model evaluation failed: ' + err[-600:], None)
+    for b in bad[:5]:
+        ctx.fail('correspondence', 'Model/SweepCharge.v and the instrumented run disagree on the qtotal of the site tensors after some local '
+                 'update (charge bookkeeping of update_local: theta.qtotal / qtotal_LR / set_B)',
+                 {'stream': 'charge-trace', 'case': cases[coq_q_idx[b]]})
+    ctx.cov['traces_validated_against_impl'] = len(coq_s) + len(coq_r) + len(coq_q)
     ctx.cov['input_distribution'] = hist
     ctx.assumptions += [
         'C13 model: only the sweep protocol (schedule, which environments are stored/deleted/recomputed, site versions); tensors, energies, '
